@@ -39,7 +39,15 @@ pub fn c01_space(tier: Tier, seed: u64, cond: bool, e_quick: usize, e_thorough: 
 }
 
 pub fn texts_c01(len: usize) -> Vec<String> {
-    gen::texts(&gen::ALPHA_C01, len)
+    let mut t = gen::texts(&gen::ALPHA_C01, len);
+    // a few longer, repetitive texts: counted and lazy repeats need more than `hi` repetitions
+    // before their bookkeeping shows
+    for extra in ["aaab", "aaaa", "abab", "aabb", "bbba", "aaaab", "ababab", "aa-aaa", "ééé-", "a\nab", "ababb", "ababaa", "abcabc"] {
+        if extra.chars().count() > len {
+            t.push(extra.to_string());
+        }
+    }
+    t
 }
 
 /// The unrestricted (C05) space: all features, no scoping rules - self-referential and forward
@@ -76,5 +84,11 @@ pub fn unrestricted(tier: Tier, seed: u64, e_quick: usize, e_thorough: usize, ra
 }
 
 pub fn texts_mb(len: usize) -> Vec<String> {
-    gen::texts(&gen::ALPHA_MB, len)
+    let mut t = gen::texts(&gen::ALPHA_MB, len);
+    for extra in ["aaaa", "aéaé", "abcabc", "aaéé😀", "aa\naa"] {
+        if extra.chars().count() > len {
+            t.push(extra.to_string());
+        }
+    }
+    t
 }
